@@ -91,6 +91,9 @@ struct Drv<const M: usize> {
     nops: usize,
     // pending try_with frames: how many are open (the model keeps the details)
     content_checks: usize,
+    // C10, byte-exact clause: when non-zero every allocation of this history has this alignment
+    // and a size that is a multiple of it (and nothing is ever given back individually)
+    uniform: usize,
 }
 
 // result of an allocation flavour: address, layout, expected bytes
@@ -413,6 +416,39 @@ impl<const M: usize> Drv<M> {
             }
             Err(r) => self.end(desc, &r),
         }
+    }
+
+    /// an allocation of `uniform`-aligned bytes whose size is a multiple of the alignment
+    fn op_alloc_uniform(&mut self) {
+        let a = self.uniform;
+        let cap = self.b().chunk_capacity();
+        let units = match self.rng.below(10) {
+            0 => 0,
+            1..=5 => 1 + self.rng.usize_below(12),
+            6 | 7 => (cap / a + self.rng.usize_below(3)).saturating_sub(1).min(1 << 14),
+            _ => self.rng.usize_below(700),
+        };
+        let lay = Layout::from_size_align(units * a, a).unwrap();
+        let how = self.rng.below(2);
+        let name = ["alloc_layout", "try_alloc_layout"][how as usize];
+        let desc = format!("alloc {} {} {} {}", lay.size(), lay.align(), (how != 0) as u8, name);
+        let mut rng = self.rng.fork();
+        self.begin(&desc);
+        let b = self.bump.as_ref().unwrap();
+        let r = guarded(|| match how {
+            0 => Ok(b.alloc_layout(lay).as_ptr() as usize),
+            _ => b.try_alloc_layout(lay).map(|p| p.as_ptr() as usize).map_err(|_| ()),
+        });
+        let out = match r {
+            Ok(Ok(p)) => {
+                let exp = pattern(&mut rng, lay.size());
+                unsafe { write_bytes(p, &exp) };
+                Ok((p, lay.size(), lay.align(), exp))
+            }
+            Ok(Err(())) => Err(Res::Err),
+            Err(p) => Err(p),
+        };
+        self.record_alloc(&desc, out);
     }
 
     fn op_alloc(&mut self) {
@@ -754,8 +790,10 @@ impl<const M: usize> Drv<M> {
                         track::paused(|| ());
                         let was = track::set_active(false);
                         let before = me.nops;
-                        me.inner_actions();
-                        if nested {
+                        if me.uniform == 0 {
+                            me.inner_actions();
+                        }
+                        if nested && me.uniform == 0 {
                             me.op_try_with(depth + 1);
                         }
                         inner_ops = me.nops - before;
@@ -823,6 +861,17 @@ impl<const M: usize> Drv<M> {
                     }
                 }
             }};
+        }
+        if self.uniform != 0 {
+            // Result<T, T> with T an unsigned integer of the history's alignment: size 2*A, align A
+            match self.uniform {
+                1 => go!(u8, u8),
+                2 => go!(u16, u16),
+                4 => go!(u32, u32),
+                8 => go!(u64, u64),
+                _ => go!(u128, u128),
+            }
+            return;
         }
         if combo == 5 {
             self.op_try_with_zst(fallible);
@@ -997,10 +1046,15 @@ fn run_history<const M: usize>(plan: &Plan) {
     track::reset_log();
     let c = bumpalo::verif_hooks::consts();
     let mode = if cfg!(debug_assertions) { "debug" } else { "release" };
-    let mut d: Drv<M> = Drv { bump: None, blks: Vec::new(), rng, out: std::io::stdout(), log_mark: 0, nops: 0, content_checks: 0 };
+    let mut d: Drv<M> = Drv { bump: None, blks: Vec::new(), rng, out: std::io::stdout(), log_mark: 0, nops: 0, content_checks: 0, uniform: 0 };
+    if M >= 1 && M <= 16 && plan.hid % 5 == 4 {
+        // a uniform history: one alignment between MIN_ALIGN and 16
+        let choices: Vec<usize> = [1usize, 2, 4, 8, 16].iter().copied().filter(|a| *a >= M).collect();
+        d.uniform = choices[(plan.hid / 5) as usize % choices.len()];
+    }
     d.line(&format!(
-        "H id={} seed={} malign={} mode={} adversary={} eaddr={} consts={},{},{},{},{},{},{}",
-        plan.hid, plan.seed, M, mode, adversary as u8, c[7], c[0], c[1], c[2], c[3], c[4], c[5], c[6]
+        "H id={} seed={} malign={} mode={} adversary={} eaddr={} consts={},{},{},{},{},{},{} uniform={}",
+        plan.hid, plan.seed, M, mode, adversary as u8, c[7], c[0], c[1], c[2], c[3], c[4], c[5], c[6], d.uniform
     ));
     // fault plan for this history
     let fp = d.rng.below(10);
@@ -1055,7 +1109,7 @@ fn run_history<const M: usize>(plan: &Plan) {
     }
     // C18: an arena built with a capacity serves that many bytes (in MIN_ALIGN multiples)
     // without obtaining more memory
-    if how != 0 && cap > 0 && cap <= HUGE && fp != 0 && d.rng.chance(1, 2) {
+    if d.uniform == 0 && how != 0 && cap > 0 && cap <= HUGE && fp != 0 && d.rng.chance(1, 2) {
         let want = cap - cap % M;
         if want > 0 {
             let parts = 1 + d.rng.usize_below(3);
@@ -1107,7 +1161,17 @@ fn run_history<const M: usize>(plan: &Plan) {
             _ => {}
         }
         let r = d.rng.below(100);
-        if r < 48 {
+        if d.uniform != 0 {
+            if r < 62 {
+                d.op_alloc_uniform();
+            } else if r < 80 {
+                d.op_try_with(0);
+            } else if r < 90 {
+                d.op_reset();
+            } else {
+                d.op_setlimit();
+            }
+        } else if r < 48 {
             d.op_alloc();
         } else if r < 58 {
             d.op_dealloc();
